@@ -38,7 +38,7 @@ ASSUMPTIONS = ["inputs finite; outputs compared per input timestamp; one output 
 
 def budget(tier: str) -> dict[str, Any]:
     if tier == "quick":
-        return {"shards": 8, "cases": 1200}
+        return {"shards": 8, "cases": 3600}
     return {"shards": 32, "cases": 6000, "hashseeds": [0, 1, 2, 3]}
 
 
